@@ -362,9 +362,67 @@ CLOCK = {"datetime.datetime.now", "datetime.datetime.utcnow", "datetime.datetime
          "time.time", "time.localtime", "time.strftime", "time.gmtime", "time.ctime"}
 
 
+# igraph methods that start from random positions / make random choices (igraph reference manual: layout_auto picks
+# Fruchterman-Reingold or DrL for graphs that are not small and connected); they draw from Python's global `random`
+IGRAPH_RANDOM_METHODS = {"layout_auto", "layout_drl", "layout_fruchterman_reingold", "layout_fruchterman_reingold_3d", "layout_grid_fruchterman_reingold",
+                         "layout_graphopt", "layout_lgl", "layout_random", "layout_random_3d", "layout_davidson_harel", "layout_umap",
+                         "community_label_propagation", "community_multilevel", "community_leiden", "community_infomap", "community_spinglass",
+                         "rewire", "rewire_edges"}
+IGRAPH_RANDOM_LAYOUT_NAMES = {"auto", "automatic", "drl", "fr", "fruchterman_reingold", "fr3d", "grid_fr", "graphopt", "lgl", "random", "random_3d", "dh", "davidson_harel", "umap"}
+
+
+def nx_random_functions(ctx) -> dict:
+    """name -> seed parameter (name or position) of the functions of the installed networkx that take a random state
+    (decorated with np_random_state / py_random_state in its source): called without a seed they draw from the global
+    generators"""
+    if "nx_random_functions" in ctx.cache:
+        return ctx.cache["nx_random_functions"]
+    import pathlib
+    import sys
+    out = {}
+    root = next((pathlib.Path(p) / "networkx" for p in sys.path if p and (pathlib.Path(p) / "networkx" / "__init__.py").is_file()), None)
+    if root is not None:
+        for f in root.rglob("*.py"):
+            if "tests" in f.parts:
+                continue
+            try:
+                src = f.read_text()
+            except OSError:
+                continue
+            if "random_state" not in src:
+                continue
+            try:
+                tree = ast.parse(src)
+            except SyntaxError:
+                continue
+            for fn in ast.walk(tree):
+                if isinstance(fn, ast.FunctionDef):
+                    for d in fn.decorator_list:
+                        if isinstance(d, ast.Call) and norm(d.func).split(".")[-1] in ("np_random_state", "py_random_state") and d.args and isinstance(d.args[0], ast.Constant):
+                            a = d.args[0].value
+                            names = [x.arg for x in fn.args.posonlyargs + fn.args.args]
+                            out[fn.name] = (a if isinstance(a, str) else (names[a] if isinstance(a, int) and a < len(names) else "seed"), a if isinstance(a, int) else (names.index(a) if a in names else None))
+    ctx.cache["nx_random_functions"] = out
+    return out
+
+
 def nondet_source(ctx, fi: FuncInfo, n: ast.AST) -> Optional[str]:
     if isinstance(n, ast.Call):
         r = ctx.repo.resolve_dotted(fi.module, n.func)
+        if r and r[0] == "ext" and r[1].startswith("networkx."):
+            nm = r[1].split(".")[-1]
+            rf = nx_random_functions(ctx)
+            if nm in rf:
+                pname, ppos = rf[nm]
+                sv = kwarg(n, pname)
+                if sv is None and ppos is not None and ppos < len(n.args):
+                    sv = n.args[ppos]
+                if sv is None or (isinstance(sv, ast.Constant) and sv.value is None):
+                    return f"{r[1]} without a seed (draws from the global random state)"
+        if isinstance(n.func, ast.Attribute) and n.func.attr in IGRAPH_RANDOM_METHODS and not (r and r[0] in ("func", "class")):
+            return f"igraph {n.func.attr} (starts from random positions / random choices)"
+        if isinstance(n.func, ast.Attribute) and n.func.attr == "layout" and n.args and isinstance(n.args[0], ast.Constant) and n.args[0].value in IGRAPH_RANDOM_LAYOUT_NAMES:
+            return f"igraph layout({n.args[0].value!r}) (starts from random positions)"
         if r and r[0] == "ext":
             q = r[1]
             if q in RNG_STATE_SETTERS:
@@ -414,7 +472,7 @@ class NondetFlow:
         if fi.fq in self.summ:
             return self.summ[fi.fq]
         if fi.fq in self.stack:
-            return {"ret": [], "params": {}}
+            return {"ret": [], "params": {}, "pflows": {}, "pret": set()}
         self.stack.add(fi.fq)
         try:
             s = self._analyse(fi)
@@ -429,6 +487,11 @@ class NondetFlow:
         params = params_of(fn)
         # origins: name -> list of (source description, ast node)
         tainted: dict[str, list] = {}
+        # what the caller hands in is followed too (marker origins "param:<name>"): which parameters end up in which
+        # other (mutated) parameter, and which in the result
+        markers = {p_: ast.Name(p_, ast.Load()) for p_ in params}
+        for p_ in params:
+            tainted[p_] = [("param:" + p_, fi, markers[p_])]
 
         def expr_origins(e: ast.AST) -> list:
             out = []
@@ -441,7 +504,14 @@ class NondetFlow:
                 if isinstance(n, ast.Call):
                     cs = ctx.cg.resolve_call(fi, n, ctx.cg.local_types(fi), set(params))
                     if cs.kind == "tucan":
-                        out += self.summary(cs.target)["ret"]
+                        sm_ = self.summary(cs.target)
+                        out += sm_["ret"]
+                        # arguments that the callee passes on into its result
+                        tps = params_of(cs.target.node)
+                        off_ = 1 if cs.target.cls is not None and isinstance(n.func, ast.Attribute) else 0
+                        for i_, a_ in enumerate(n.args):
+                            if i_ + off_ < len(tps) and tps[i_ + off_] in sm_.get("pret", ()):
+                                out += expr_origins(a_)
             return out
 
         changed = True
@@ -493,6 +563,12 @@ class NondetFlow:
                             if pi < len(tparams):
                                 # callee taints this parameter on its own, or passes our tainted args into it
                                 o = list(s["params"].get(tparams[pi], []))
+                                # ... or what we hand in at another position ends up in it
+                                for src_p in s.get("pflows", {}).get(tparams[pi], ()):
+                                    if src_p in tparams:
+                                        j = tparams.index(src_p) - off
+                                        if 0 <= j < len(n.args):
+                                            o += expr_origins(n.args[j])
                                 rn = _root_name(a) if isinstance(a, (ast.Name, ast.Subscript, ast.Attribute)) else None
                                 if rn:
                                     taint(rn, o)
@@ -514,7 +590,13 @@ class NondetFlow:
                 ret += expr_origins(n.value)
             if isinstance(n, ast.Expr) and isinstance(n.value, (ast.Yield, ast.YieldFrom)) and n.value.value is not None:
                 ret += expr_origins(n.value.value)
-        return {"ret": ret, "params": {p: tainted[p] for p in params if p in tainted}, "tainted": tainted}
+        is_marker = lambda o: isinstance(o[0], str) and o[0].startswith("param:")
+        pflows = {p: {o[0][6:] for o in tainted.get(p, []) if is_marker(o) and o[0][6:] != p} for p in params}
+        pret = {o[0][6:] for o in ret if is_marker(o)}
+        return {"ret": [o for o in ret if not is_marker(o)],
+                "params": {p: [o for o in tainted[p] if not is_marker(o)] for p in params if p in tainted and any(not is_marker(o) for o in tainted[p])},
+                "pflows": {p: v for p, v in pflows.items() if v}, "pret": pret,
+                "tainted": {k: [o for o in v if not is_marker(o)] for k, v in tainted.items()}}
 
 
 RNG_METHODS = {"shuffle", "random", "randint", "randrange", "choice", "choices", "sample", "uniform", "getrandbits", "gauss",
